@@ -15,10 +15,15 @@ Two parts.
   that takes the fast path never meets a restructuring writer (`mutual_exclusion`), while one that
   sees `WRITER`/`WAITER` walks the `next` list.
 
+* **Bin theorems** (`Props/C12Bins.lean`, models `Proto/BinT` and `Proto/BinX`): in every reachable
+  state a reader's step is enabled, it changes no lock, no node and no other thread, and a reader
+  run alone finishes within `2·|heap| + 5` (tree bin) / `|heap| + 4` (list bin under resize) of
+  its own steps.
+
 **Partial:** that every read finishes within a *bounded* number of its own steps from any
-reachable state of the whole map (finite, acyclic `next` chains; forwarding chains of bounded
-depth) is checked on the implementation only: the harness suspends writers at every yield point
-and runs each read alone (`harness solo`). -/
+reachable state of the *whole map* (iteration, `len`, forwarding chains across several nested
+resizes, many bins) is checked on the implementation: the harness suspends writers at every
+yield point and runs each read alone (`harness solo`). -/
 namespace Flurry.C12
 open Flurry.Sig Flurry.Gen
 
